@@ -89,7 +89,9 @@ func zzvC01Configs(thorough bool) []zzvC01Cfg {
 
 // zzvC01Names is the counter-name alphabet: approved names, prefixes,
 // suffixes, near-misses, literal braces, stack heads equal to plain names.
-var zzvC01Names = []string{"c", "c:a", "c:b", "c:c", "c:{a,b}", "c:a,b", "c:", "cc", "c:ab", "d:a", "d:b", "s", "s\nF", "s2\nF", "sx\nF", "c:a\nF", "\nF", "c\nF", "s\nF\nG"}
+var zzvC01Names = []string{"c", "c:a", "c:b", "c:c", "c:{a,b}", "c:a,b", "c:", "cc", "c:ab", "d:a", "d:b", "s", "s\nF", "s2\nF", "sx\nF", "c:a\nF", "\nF", "c\nF", "s\nF\nG",
+	// names that look like abbreviated frame lines of an approved name
+	"\".s\nF", "x.s\nF"}
 
 type zzvC01FileSet struct {
 	desc  string
